@@ -374,7 +374,7 @@ func TestVerifC14(t *testing.T) {
 	c := ev.Start("C14")
 	defer c.Finish()
 	fns := styleFns()
-	total := c.Share(c.Pick(40000, 800000))
+	total := c.Share(c.Pick(120000, 800000))
 	const rb = 250
 	caseNo := 0
 	for i := 0; i < total; i += rb {
@@ -390,7 +390,7 @@ func TestVerifC14(t *testing.T) {
 			one(c, r, fns, j == i)
 		}
 	}
-	totalR := c.Share(c.Pick(1600, 20000))
+	totalR := c.Share(c.Pick(5000, 20000))
 	for i := 0; i < totalR; i += 50 {
 		n := caseNo
 		caseNo++
